@@ -21,7 +21,14 @@ REQUIRED_BRANCHES = ["leaf", "leaf-all", "leaf-unadorned", "conj", "disjS", "dis
                      "replay-filt-advance-rejected-then-next-rejected",
                      # paths of postingsIterator.Next/Advance taken by the replayed leaves
                      "leaf-next-falls-through-exhausted-segment", "leaf-advance-jumps-to-later-segment",
-                     "leaf-advance-falls-through-to-next", "leaf-restart", "leaf-restart-unadorned", "leaf-narrowed"]
+                     "leaf-advance-falls-through-to-next", "leaf-restart", "leaf-restart-unadorned", "leaf-narrowed",
+                     # corpora with a MERGED first segment (1-hit encoded postings lists of once-only keywords) followed by a
+                     # later segment, and a score-none disjunction rewritten into one unadorned iterator over them; the contents
+                     # of every unadorned leaf are compared with the set expressions of the model
+                     "corpus:reopened-inert", "trace:unadorned-disjunction-with-1hit-in-earlier-segment",
+                     "replay-unadorned-contents-checked", "replay-leaf-postings-1hit",
+                     # an open-ended date range facing a stored datetime within 2^52 ns of that end of the int64 time line
+                     "open-date-range-with-value-beyond-2^63-2^52"]
 ASSUMPTIONS = [
     "a DocumentMatch is its doc number: scores, locations and the match pool do not influence which documents are returned",
     "sort.Sort of the children by Count() only changes the order in which children are asked, never a doc number",
